@@ -6,7 +6,8 @@
 From Coq Require Import List NArith ZArith Bool Arith Permutation.
 Import ListNotations.
 From PyGql Require Import Exec.RuntimeFutures Exec.RuntimeMachine
-  Proofs.RuntimeFuturesProofs Proofs.RuntimeMachineProofs Proofs.RuntimeMachineWf.
+  Proofs.RuntimeFuturesProofs Proofs.RuntimeMachineProofs Proofs.RuntimeMachineWf
+  Proofs.RuntimeBlockingProofs.
 
 (* ---- layer 1 ---- *)
 
@@ -139,6 +140,28 @@ Theorem C08_unexpected :
     exists x, term s = Exn x /\ In x (raised (ms s)).
 Proof. exact run_unexpected. Qed.
 Print Assumptions C08_unexpected.
+
+(* the blocking configurations: on BlockingRuntime nothing is deferred (the
+   program is [erase_prog pr]); the generic executor then needs no completion at
+   all and returns the data and the errors of the depth-first BlockingExecutor
+   semantics of the original program -- the same ones every deferred schedule
+   ends with (C08_confluence) *)
+Theorem C08_blocking_configs :
+  forall pr v es,
+    bs_prog pr = (Some v, es) ->
+    let s := start (erase_prog pr) in
+    run [] (erase_prog pr) = Some s /\ pending (ms s) = [] /\ term s = Val v /\
+    Permutation (errs_of (log (ms s))) (errs_of es).
+Proof. exact blocking_runtime_agrees. Qed.
+Print Assumptions C08_blocking_configs.
+
+Theorem C08_blocking_configs_fail :
+  forall pr es,
+    bs_prog pr = (None, es) ->
+    let s := start (erase_prog pr) in
+    pending (ms s) = [] /\ exists x, term s = Exn x /\ In x (raised (ms s)).
+Proof. exact blocking_runtime_fails. Qed.
+Print Assumptions C08_blocking_configs_fail.
 
 (* ---- non-vacuity ---- *)
 Local Open Scope N_scope.
